@@ -86,7 +86,138 @@ func coverBinary(c *Ctx, rule, fn, qtype string, exempt map[string]string) {
 		a, b := fieldInfluencesResult(fi, recv, qtype, f), fieldInfluencesResult(fi, param, qtype, f)
 		c.Check(a && b, rule, key, fi.Decl.Pos(), "read on both operands and flows into the result",
 			fmt.Sprintf("field %s.%s does not influence the comparison result (receiver side=%v, argument side=%v): an edit of it is classified as unmodified", qtype, f, a, b))
+		if a && b {
+			c.Check(fieldsMeetSymmetrically(fi, recv, param, qtype, f), rule, key+":compared symmetrically", fi.Decl.Pos(), "both sides meet in ==, !=, slices.Equal or IsIdentical (or probe each other)",
+				fmt.Sprintf("field %s.%s of the two operands never meets in a symmetric comparison: the test is one-directional (an addition or a removal goes unnoticed)", qtype, f))
+		}
 	}
+}
+
+// taintOf computes the objects tainted (flow-insensitively) by reads of
+// root.<…>.field, and returns a predicate telling whether a node mentions the
+// field or a tainted object.
+func taintOf(fi *FuncInfo, root types.Object, qtype, field string) func(ast.Node) bool {
+	info := fi.Pkg.TypesInfo
+	tainted := map[types.Object]bool{}
+	mentions := func(n ast.Node) bool {
+		found := false
+		ast.Inspect(n, func(m ast.Node) bool {
+			if found || m == nil {
+				return false
+			}
+			switch x := m.(type) {
+			case *ast.SelectorExpr:
+				if x.Sel.Name == field && fieldOwner(info, x) == qtype {
+					var r types.Object
+					ast.Inspect(x.X, func(k ast.Node) bool {
+						if id, ok := k.(*ast.Ident); ok && r == nil {
+							r = info.Uses[id]
+						}
+						return r == nil
+					})
+					if r == root {
+						found = true
+					}
+				}
+			case *ast.Ident:
+				if o := info.Uses[x]; o != nil && tainted[o] {
+					found = true
+				}
+			}
+			return true
+		})
+		return found
+	}
+	for changed := true; changed; {
+		changed = false
+		ast.Inspect(fi.Decl.Body, func(n ast.Node) bool {
+			switch x := n.(type) {
+			case *ast.AssignStmt:
+				for i, l := range x.Lhs {
+					var rhs ast.Expr
+					if len(x.Rhs) == len(x.Lhs) {
+						rhs = x.Rhs[i]
+					} else if len(x.Rhs) == 1 {
+						rhs = x.Rhs[0]
+					}
+					if rhs == nil || !mentions(rhs) {
+						continue
+					}
+					if o := objOf(info, l); o != nil && !tainted[o] {
+						tainted[o] = true
+						changed = true
+					}
+				}
+			case *ast.RangeStmt:
+				if mentions(x.X) {
+					for _, v := range []ast.Expr{x.Key, x.Value} {
+						if id, ok := v.(*ast.Ident); ok {
+							if o := info.Defs[id]; o != nil && !tainted[o] {
+								tainted[o] = true
+								changed = true
+							}
+						}
+					}
+				}
+			}
+			return true
+		})
+	}
+	return mentions
+}
+
+// fieldsMeetSymmetrically: the field of both operands meets in a symmetric
+// comparison (==, !=, slices.Equal/Compare, reflect.DeepEqual, an
+// IsIdentical/Equal method), or each side is probed against the other.
+func fieldsMeetSymmetrically(fi *FuncInfo, a, b types.Object, qtype, field string) bool {
+	if a == nil || b == nil {
+		return false
+	}
+	info := fi.Pkg.TypesInfo
+	ma, mb := taintOf(fi, a, qtype, field), taintOf(fi, b, qtype, field)
+	meet := false
+	probeAB, probeBA := false, false
+	ast.Inspect(fi.Decl.Body, func(n ast.Node) bool {
+		switch x := n.(type) {
+		case *ast.BinaryExpr:
+			if x.Op == token.EQL || x.Op == token.NEQ {
+				if (ma(x.X) && mb(x.Y)) || (mb(x.X) && ma(x.Y)) {
+					meet = true
+				}
+			}
+		case *ast.CallExpr:
+			fn := Callee(info, x)
+			if fn == nil {
+				return true
+			}
+			name := fn.Name()
+			pkg := ""
+			if fn.Pkg() != nil {
+				pkg = fn.Pkg().Path()
+			}
+			symmetric := (pkg == "slices" && (name == "Equal" || name == "Compare" || name == "EqualFunc")) || (pkg == "reflect" && name == "DeepEqual") || (pkg == "maps" && name == "Equal") || (pkg == "bytes" && name == "Equal")
+			if symmetric && len(x.Args) >= 2 {
+				if (ma(x.Args[0]) && mb(x.Args[1])) || (mb(x.Args[0]) && ma(x.Args[1])) {
+					meet = true
+				}
+			}
+			if sel, ok := x.Fun.(*ast.SelectorExpr); ok && (name == "IsIdentical" || name == "Equal" || name == "IsSame") && len(x.Args) == 1 {
+				if (ma(sel.X) && mb(x.Args[0])) || (mb(sel.X) && ma(x.Args[0])) {
+					meet = true
+				}
+			}
+			if pkg == "slices" && (name == "Contains" || name == "Index") && len(x.Args) == 2 {
+				if ma(x.Args[0]) && mb(x.Args[1]) {
+					probeBA = true
+				}
+				if mb(x.Args[0]) && ma(x.Args[1]) {
+					probeAB = true
+				}
+			}
+		}
+		return true
+	})
+	return meet || (probeAB && probeBA)
 }
 
 // fieldInfluencesResult reports whether a read of root.<…>.field (field
@@ -250,6 +381,113 @@ func runC03(c *Ctx) {
 			return true
 		})
 		c.Check(n > 0, "C03-R1", "matchEntries uses Rule.IsIdentical", me.Decl.Pos(), "used", "matchEntries no longer decides identity with Rule.IsIdentical")
+	}
+
+	// isEntryIdentical: file-level disabled checks of both entries, compared symmetrically
+	if iei := c.MustFunc("C03-R1", "internal/discovery.isEntryIdentical"); iei != nil {
+		sig := iei.Obj.Type().(*types.Signature)
+		pb, pa := types.Object(sig.Params().At(0)), types.Object(sig.Params().At(1))
+		fa := fieldInfluencesResult(iei, pa, "internal/discovery.Entry", "DisabledChecks")
+		fb := fieldInfluencesResult(iei, pb, "internal/discovery.Entry", "DisabledChecks")
+		c.Check(fa && fb, "C03-R1", "isEntryIdentical:DisabledChecks", iei.Decl.Pos(), "both sides influence the result", "file-level disabled checks of one side no longer influence isEntryIdentical")
+		if fa && fb {
+			c.Check(fieldsMeetSymmetrically(iei, pb, pa, "internal/discovery.Entry", "DisabledChecks"), "C03-R1", "isEntryIdentical:DisabledChecks:compared symmetrically", iei.Decl.Pos(), "symmetric",
+				"the disabled-check lists are compared in one direction only: adding (or removing) a file/disable comment leaves the rules unmodified")
+		}
+	}
+	// wasMoved is defined on the path the rule is found under (Path.Name) of both sides
+	if me := c.MustFunc("C03-R1", "internal/discovery.matchEntries"); me != nil {
+		minfo := me.Pkg.TypesInfo
+		n, good := 0, 0
+		ast.Inspect(me.Decl.Body, func(nd ast.Node) bool {
+			as, ok := nd.(*ast.AssignStmt)
+			if !ok || len(as.Lhs) != 1 || !fieldSel(minfo, as.Lhs[0], "internal/discovery.matchedEntry", "wasMoved") {
+				return true
+			}
+			n++
+			if be, ok := ast.Unparen(as.Rhs[0]).(*ast.BinaryExpr); ok && be.Op == token.NEQ &&
+				fieldSel(minfo, be.X, "internal/discovery.Path", "Name") && fieldSel(minfo, be.Y, "internal/discovery.Path", "Name") {
+				rx, _, _ := accessPath(minfo, be.X)
+				ry, _, _ := accessPath(minfo, be.Y)
+				if rx != ry {
+					good++
+				}
+			}
+			return true
+		})
+		c.Check(n >= 1 && n == good, "C03-R1", "matchEntries:wasMoved := after.Path.Name != before.Path.Name", me.Decl.Pos(), itoa(good)+" definition(s)", "`renamed` is no longer decided by comparing the two entries' Path.Name ("+itoa(good)+"/"+itoa(n)+" stores)")
+	}
+	// git.Changes: the three attributes of one side of a change are read at one and the same revision
+	if ch := c.MustFunc("C03-R1", "internal/git.Changes"); ch != nil {
+		ginfo := ch.Pkg.TypesInfo
+		pm := parentMap(ch.Decl.Body)
+		type grp struct {
+			revs map[string]bool
+			n    int
+			pos  token.Pos
+		}
+		groups := map[string]*grp{}
+		ast.Inspect(ch.Decl.Body, func(nd ast.Node) bool {
+			as, ok := nd.(*ast.AssignStmt)
+			if !ok || len(as.Lhs) != 1 || len(as.Rhs) != 1 {
+				return true
+			}
+			call, ok := as.Rhs[0].(*ast.CallExpr)
+			if !ok || len(call.Args) < 2 {
+				return true
+			}
+			callee := calleeName(ginfo, call)
+			if callee != "internal/git.getTypeForPath" && callee != "internal/git.resolveSymlinkTarget" && callee != "internal/git.getContentAtCommit" {
+				return true
+			}
+			lhs := exprStr(as.Lhs[0])
+			side := ""
+			switch {
+			case strings.Contains(lhs, "Before"):
+				side = "Before"
+			case strings.Contains(lhs, "After"):
+				side = "After"
+			default:
+				return true
+			}
+			// group per enclosing loop
+			loopID := "top"
+			for cur := pm[as]; cur != nil; cur = pm[cur] {
+				switch cur.(type) {
+				case *ast.RangeStmt, *ast.ForStmt:
+					loopID = c.P.Pos(cur.Pos())
+				}
+				if loopID != "top" {
+					break
+				}
+			}
+			root, _, _ := accessPath(ginfo, as.Lhs[0])
+			rootName := "?"
+			if root != nil {
+				rootName = root.Name()
+			}
+			_ = loopID
+			k := side + " side of `" + rootName + "` in loop " + itoa(len(groups))
+			// stable key: side + ordinal of the enclosing loop
+			k = side + "@" + loopID
+			g := groups[k]
+			if g == nil {
+				g = &grp{revs: map[string]bool{}, pos: as.Pos()}
+				groups[k] = g
+			}
+			g.revs[exprStr(call.Args[1])] = true
+			g.n++
+			return true
+		})
+		idx := 0
+		for _, k := range sortedKeys(groups) {
+			g := groups[k]
+			idx++
+			side := k[:strings.Index(k, "@")]
+			c.Check(len(g.revs) == 1, "C03-R1", "git.Changes:"+side+" attributes read at one revision (group "+itoa(idx)+")", g.pos, itoa(g.n)+" reads at "+strings.Join(sortedKeys(g.revs), ","),
+				"type, symlink target and body of the "+side+" side are read at different revisions ("+strings.Join(sortedKeys(g.revs), " vs ")+"): one of them describes another commit")
+		}
+		c.Check(len(groups) >= 3, "C03-R1", "git.Changes:revision groups found", ch.Decl.Pos(), itoa(len(groups)), "expected revision-reading groups not found")
 	}
 
 	// ---- R2 ----
